@@ -39,6 +39,15 @@ Qed.
 Definition not_in_use (x : nat) (s : state) : Prop :=
   forall th p, In th (threads s) -> cur th = Some p -> releases x p = false.
 
+Definition not_in_useb (x : nat) (s : state) : bool :=
+  forallb (fun th => match cur th with Some p => negb (releases x p) | None => true end) (threads s).
+
+Lemma not_in_useb_spec x s : not_in_useb x s = true -> not_in_use x s.
+Proof.
+  intros H th p Hin Hc. unfold not_in_useb in H. rewrite forallb_forall in H. specialize (H th Hin).
+  rewrite Hc in H. apply negb_true_iff in H. exact H.
+Qed.
+
 Lemma not_in_use_free s x : LInv s -> not_in_use x s ->
   forall th, In th (threads s) -> holds th (LView x) = None /\ waits_w th (LView x) = false.
 Proof.
